@@ -13,6 +13,8 @@ namespace
 {
 using dbgroup::thread::IDManager;
 constexpr size_t kN = dbgroup::thread::kMaxThreadNum;
+// the final round starts min(kN, 10) fresh threads (large capacities exist to exercise table packing, not to be filled)
+constexpr size_t kFinal = kN < 10 ? kN : 10;
 
 // the guarded hook in src/thread/id_manager.cpp asks us for the probe start
 thread_local size_t tl_probe_hash = 0;
@@ -180,8 +182,8 @@ void final_fn(void *p)
   const int k = S->arrived++;
   S->final_ids[k] = static_cast<int>(id);
   S->final_vt[k] = dsim::self();
-  if (S->arrived == static_cast<int>(kN)) {
-    for (int i = 0; i + 1 < static_cast<int>(kN); ++i) dsim::signal(S->final_vt[i]);
+  if (S->arrived == static_cast<int>(kFinal)) {
+    for (int i = 0; i + 1 < static_cast<int>(kFinal); ++i) dsim::signal(S->final_vt[i]);
     dsim::probe(pFinalRound);
   } else {
     dsim::wait_signal();
@@ -218,20 +220,20 @@ void entry(void *)
   // C14: the whole capacity is available again
   set_phase("final");
   S->holders = 0;
-  std::vector<WArg> fargs(kN);
-  std::vector<int> fids(kN);
-  for (size_t t = 0; t < kN; ++t) {
+  std::vector<WArg> fargs(kFinal);
+  std::vector<int> fids(kFinal);
+  for (size_t t = 0; t < kFinal; ++t) {
     fargs[t].tid = static_cast<int>(t);
     fids[t] = dsim::spawn(final_fn, &fargs[t], "fresh");
   }
-  for (size_t t = 0; t < kN; ++t) {
+  for (size_t t = 0; t < kFinal; ++t) {
     dsim::join(fids[t]);
     S->joined[fids[t]] = true;
   }
-  for (size_t a = 0; a < kN; ++a)
-    for (size_t b = a + 1; b < kN; ++b)
+  for (size_t a = 0; a < kFinal; ++a)
+    for (size_t b = a + 1; b < kFinal; ++b)
       if (S->final_ids[a] == S->final_ids[b]) {
-        ORACLE("[C14][C05]", "final-round-duplicate-id", " :: two of the %zu fresh threads that were alive together got ID %d", kN, S->final_ids[a]);
+        ORACLE("[C14][C05]", "final-round-duplicate-id", " :: two of the %zu fresh threads that were alive together got ID %d", kFinal, S->final_ids[a]);
       }
   check_heartbeats_alive("end of run");
   set_phase("teardown");
@@ -249,6 +251,7 @@ void generate(Program &prog, dsim::Config &cfg, dsim::Rng &pr, dsim::Rng &cr, in
     case kWaves: T = n + 1 + static_cast<int>(pr.below(5)); break;
     default: T = n + 1 + static_cast<int>(pr.below(3)); break;
   }
+  if (n > 8) T = 3 + static_cast<int>(pr.below(10));  // large capacities: a dozen threads, probe starts anywhere in the table
   if (scale() >= 1 && pr.chance(1, 3)) T += 1 + static_cast<int>(pr.below(4));  // thorough tier: longer histories
   if (T > 18) T = 18;
   const int pattern = static_cast<int>(pr.below(4));  // all equal, adjacent, wrap (N-1), random
@@ -282,7 +285,7 @@ void generate(Program &prog, dsim::Config &cfg, dsim::Rng &pr, dsim::Rng &cr, in
     cfg.stall_max = 30 + static_cast<int>(cr.below(800));
   }
   cfg.spin_bound = 3 * n + 12;
-  cfg.max_steps = 200000;
+  cfg.max_steps = n > 8 ? 400000 : 200000;
 }
 
 std::string render(const Program &p)
